@@ -1031,3 +1031,77 @@ def c14(ctx):
     if orc["disagreements"]:
         raise Undecided("the regex oracle of spec/Regex.tla disagrees with Go's regexp: %s" % orc["examples"])
     ctx.replay("C14-regex-literals", cases, FIELDS["C14"], exps=docs, reject_violation=True, want_ast=True)
+
+
+# ------------------------------------------------------------------- C17
+RULES["C17"] = ("result lists (empty, one, many; find and replace; flat variables, and nested variables of named loops) of 9 "
+                "programs over all texts of up to 3 tokens from {a, \", \\\\, 0x01, newline, tab, 0x7f, a 2-byte and a 3-byte UTF-8 "
+                "character}; both renderings of the list and of single matches; the expected document is MatchDoc of the "
+                "specification's matches (spec/MatchDoc.tla) for modelled programs and the in-memory matches always; "
+                "non-trivial = at least one match")
+
+
+def lit(bs):
+    return {"k": "lit", "s": list(bs), "neg": False, "ci": False}
+
+
+def c17_cases():
+    toks = [b"a", b'"', b"\\", b"\x01", b"\n", b"\t", b"\x7f", "é".encode(), "€".encode()]
+    texts = [[]]
+    import itertools
+    for n in (1, 2, 3):
+        for combo in itertools.product(toks, repeat=n):
+            texts.append(list(b"".join(combo)))
+    anyc = {"k": "cls", "c": "any", "neg": False}
+    cap = lambda name, body: {"k": "cap", "name": name, "body": body}
+    loop = lambda mn, mx, body: {"k": "loop", "min": mn, "max": mx, "few": False, "name": "", "body": body}
+    find = lambda body: {"kind": "find", "amt": {"k": "all"}, "body": body}
+    repl = lambda body, w: {"kind": "replace", "amt": {"k": "all"}, "body": body, "with": w}
+    progs = [
+        [find([loop(1, -1, anyc)])],
+        [find([cap("x", anyc), loop(0, 1, cap("y", anyc))])],
+        [repl([anyc], [{"k": "str", "s": [60, 34, 92]}, {"k": "name", "name": "value"}, {"k": "str", "s": [62]}])],
+        [find([{"k": "cls", "c": "whitespace", "neg": True}])],
+        [repl([{"k": "or", "l": lit(b'"'), "r": lit(b"\\")}], [{"k": "name", "name": "nothing"}])],
+        [find([lit(b"a")]), repl([cap("q", lit(b"a"))], [{"k": "name", "name": "q"}, {"k": "name", "name": "q"}])],
+        [find([lit(b"zzz")])],
+    ]
+    cases = [{"id": i + 1, "cmds": p, "texts": texts} for i, p in enumerate(progs)]
+    rel = [
+        "find all at least 1 (any = c) named lp",
+        "find all at most 2 ( any = c maybe ('a' = d) ) named outer '\"'",
+    ]
+    for s in rel:
+        cases.append({"id": len(cases) + 1, "src": s, "texts": texts, "relational": True})
+    return cases
+
+
+@check("C17")
+def c17(ctx):
+    ctx.technique = ("document structure as a TLA+ definition (spec/MatchDoc.tla) evaluated by TLC on the specification's matches; "
+                     "both renderings decoded and compared with it and with the in-memory matches")
+    cases = c17_cases()
+    if ctx.tier == "quick":
+        for c in cases:
+            c["texts"] = c["texts"][:1] + c["texts"][1::3]
+    modelled = [c for c in cases if not c.get("relational")]
+    exps, st = vlib.eval_cases(ctx.scratch, modelled, module="MatchDoc", emit="EmitDoc")
+    ctx.states += st["distinct"]
+    ctx.transitions += st["states"]
+    d = ctx.scratch.sub("json")
+    cp, ep, rp = [os.path.join(d, x) for x in ("cases.ndjson", "expect.ndjson", "report.json")]
+    with open(cp, "w") as f:
+        for c in cases:
+            f.write(json.dumps(c, separators=(",", ":")) + "\n")
+    with open(ep, "w") as f:
+        for e in exps:
+            f.write(e + "\n")
+    p = subprocess.run([ctx.get_harness(), "jsoncheck", "-cases", cp, "-expect", ep, "-report", rp,
+                        "-replaydir", os.path.join(vlib.VERIF, "replays", "C17")], capture_output=True, text=True)
+    if p.returncode != 0 or not os.path.exists(rp):
+        raise Undecided("jsoncheck failed: " + p.stderr[-1500:])
+    with open(rp) as f:
+        rep = json.load(f)
+    for k in ("abstained_quirk", "ast_checked", "ast_mismatch", "rejected_by_compile"):
+        rep.setdefault(k, 0)
+    ctx.absorb("C17-json", rep)
